@@ -29,11 +29,8 @@ impl IntentStructure for MockIntent {
         self.children.iter().copied()
     }
     fn validate_intent(&self, _validator: &TransactionValidator, _aggregation: &mut AcrossIntentAggregation) -> Result<ManifestYieldSummary, IntentValidationError> {
-        let mut child_yields: IndexMap<SubintentHash, usize> = IndexMap::default();
-        for (c, y) in self.children.iter().zip(self.child_yields.iter()) {
-            child_yields.insert(*c, *y);
-        }
-        Ok(ManifestYieldSummary { parent_yields: self.parent_yields, child_yields })
+        // collected into whatever map type the field has (later entries win for a repeated child)
+        Ok(ManifestYieldSummary { parent_yields: self.parent_yields, child_yields: self.children.iter().copied().zip(self.child_yields.iter().copied()).collect() })
     }
 }
 
